@@ -47,6 +47,17 @@ Proof.
   apply (count_occ_In Nat.eq_dec) in Hin. lia.
 Qed.
 
+Lemma count_occ_concat_blocks (bs : list (list nat)) a :
+  (forall b, In b bs -> In a b) -> length bs <= count_occ Nat.eq_dec (concat bs) a.
+Proof.
+  induction bs as [|b bs IH]; intros H; simpl; [lia|].
+  rewrite count_occ_app.
+  assert (In a b) as Hin by (apply H; left; auto).
+  apply (count_occ_In Nat.eq_dec) in Hin.
+  assert (length bs <= count_occ Nat.eq_dec (concat bs) a) by (apply IH; intros; apply H; right; auto).
+  lia.
+Qed.
+
 Section PoolLive.
   Variables (job res err : Type).
   Variable f : job -> res.
@@ -247,6 +258,36 @@ Section PoolLive.
     apply (fair_finishes_from jobs n);
       [exact L | apply inv_init | unfold pm; simpl; lia |].
     simpl. intros k Hk. specialize (Hc k Hk). lia.
+  Qed.
+
+  (** the same without asking the producer to run ahead: the schedule is a sequence of
+      3|jobs|+3 blocks, every agent occurs in every block (e.g. plain round-robin over all
+      agents, or the lock-step order an unbuffered channel imposes) *)
+  Lemma fair_blocks_finish jobs n (blocks : list (list nat)) :
+    live_mode ->
+    (forall b, In b blocks -> In 0 b /\ forall k, k < n -> In (S k) b) ->
+    3 * length jobs + 3 <= length blocks ->
+    finished (runf (concat blocks) (init jobs n)) = true.
+  Proof.
+    intros L Hb Hlen.
+    set (m := length jobs + 1).
+    rewrite <- (firstn_skipn m blocks), concat_app.
+    assert (Hin1 : forall b, In b (firstn m blocks) -> In b blocks).
+    { intros b H. rewrite <- (firstn_skipn m blocks). apply in_or_app; auto. }
+    assert (Hin2 : forall b, In b (skipn m blocks) -> In b blocks).
+    { intros b H. rewrite <- (firstn_skipn m blocks). apply in_or_app; auto. }
+    apply fair_schedule_finishes; auto.
+    - pose proof (count_occ_concat_blocks (firstn m blocks) 0) as H.
+      rewrite firstn_length in H. unfold m in *.
+      assert (forall b, In b (firstn (length jobs + 1) blocks) -> In 0 b)
+        by (intros b Hi; apply (Hb b); auto).
+      specialize (H H0). lia.
+    - intros k Hk.
+      pose proof (count_occ_concat_blocks (skipn m blocks) (S k)) as H.
+      rewrite skipn_length in H. unfold m in *.
+      assert (forall b, In b (skipn (length jobs + 1) blocks) -> In (S k) b)
+        by (intros b Hi; apply (Hb b); auto).
+      specialize (H H0). lia.
   Qed.
 
 End PoolLive.
